@@ -89,7 +89,7 @@ def run(shard, tier, seed):
     @hypothesis.seed(env.subseed(seed, ID, shard["i"]))
     @settings(max_examples=n_hist, deadline=None, database=None, suppress_health_check=list(hypothesis.HealthCheck),
               phases=[hypothesis.Phase.generate])
-    @given(st.randoms(use_true_random=False), st.sampled_from(chainexec.CFGS[:3]), st.integers(6, 10), st.booleans())
+    @given(st.randoms(use_true_random=True), st.sampled_from(chainexec.CFGS[:3]), st.integers(6, 10), st.booleans())
     def prop(rnd, cfg, nb, saturate):
         res.count("histories")
         pre = "s%dh%d_%d_" % (shard["i"], res.counters["histories"], seed)
